@@ -34,6 +34,33 @@ def canonBytes (bs : Bytes) : String :=
   | some (w, []) => VL.hexEncode (Wire.encW (canonW w))
   | _ => "malformed:" ++ VL.hexEncode bs
 
+def insertPair (x : String × String) : List (String × String) → List (String × String)
+  | [] => [x]
+  | y :: r => if x.1 < y.1 || (x.1 == y.1 && x.2 ≤ y.2) then x :: y :: r else y :: insertPair x r
+
+/-- the dump of the batch driver: like `GenVL.showVal`, but map entries are sorted by (key text, value text) —
+struct-typed keys are pointers, so two entries can have equal key texts -/
+partial def showV (Pg : Prog) (ty : Ty) (v : GoVal) : String :=
+  match v, ty with
+  | .nil, _ => "n"
+  | .bool b, _ => if b then "b1" else "b0"
+  | .int x, _ => s!"I{x}"
+  | .dbl x, _ => "D" ++ hex16 x
+  | .bytes b, _ => "X" ++ VL.hexEncode b
+  | .list xs, .set e => s!"T {xs.length}" ++ String.join (xs.map fun x => " " ++ showV Pg e x)
+  | .list xs, .list e => s!"L {xs.length}" ++ String.join (xs.map fun x => " " ++ showV Pg e x)
+  | .list xs, _ => s!"L {xs.length} ?"
+  | .map kvs, .map k w =>
+      let es := kvs.map fun (a, b) => (showV Pg k a, showV Pg w b)
+      let es := es.foldr insertPair []
+      s!"M {kvs.length}" ++ String.join (es.map fun (a, b) => " " ++ a ++ " " ++ b)
+  | .map kvs, _ => s!"M {kvs.length} ?"
+  | .strct fs, .struct i =>
+      match Pg.struct? i with
+      | some sd => s!"R {fs.length}" ++ String.join ((fs.zip sd.fields).map fun (x, f) => " " ++ showV Pg f.ty x)
+      | none => "R ?"
+  | .strct fs, _ => s!"R {fs.length} ?"
+
 def step (why : Bool) (ps : Progs) (line : String) : Progs × String :=
   let toks := VL.toks line
   match schemaLine ps toks with
@@ -61,7 +88,7 @@ def step (why : Bool) (ps : Progs) (line : String) : Progs × String :=
     | ["FR", key, hex] =>
       match splitKey key with
       | some (u, i) => match ps.get u, VL.hexDecode hex with
-        | some P, some bs => (ps, resStr why (fastRead P i bs) fun (v, _) => showVal P (.struct i) v)
+        | some P, some bs => (ps, resStr why (fastRead P i bs) fun (v, _) => showV P (.struct i) v)
         | _, _ => (ps, "bad-op")
       | none => (ps, "bad-op")
     | ["FO", key, hex] =>
